@@ -249,6 +249,24 @@ func build(c Case, dir string) (*world, error) {
 	if !w.tgtIsReg() && c.DirPre != "" {
 		tr, _ := ref.New(tgtName)
 		switch c.DirPre {
+		case "blockroot":
+			// the layout holds another image under the target tag, and something (a directory) occupies the place where the new
+			// root manifest has to go: the copy fails at its very last step
+			cfgB := []byte("{}")
+			if _, err := w.rc.BlobPut(ctx, tr, descriptor.Descriptor{Digest: digest.FromBytes(cfgB), Size: 2}, bytes.NewReader(cfgB)); err != nil {
+				return nil, fmt.Errorf("setup blob put to target layout: %w", err)
+			}
+			mb := []byte(`{"schemaVersion":2,"mediaType":"application/vnd.oci.image.manifest.v1+json","config":{"mediaType":"application/vnd.oci.empty.v1+json","digest":"sha256:44136fa355b3678a1146ad16f7e8649e94fb4fc21fe77e8310c060f61caaff8a","size":2},"layers":[],"annotations":{"old":"` + uniq + `"}}`)
+			om, err := manifest.New(manifest.WithRaw(mb))
+			if err != nil {
+				return nil, err
+			}
+			if err := w.rc.ManifestPut(ctx, tr, om); err != nil {
+				return nil, fmt.Errorf("setup manifest put to target layout: %w", err)
+			}
+			w.tag0 = om.GetDescriptor().Digest.String()
+			i := strings.IndexByte(w.g.Root.Digest, ':')
+			_ = os.MkdirAll(filepath.Join(w.tgtDir, "blobs", w.g.Root.Digest[:i], w.g.Root.Digest[i+1:], "occupied"), 0o755)
 		case "other":
 			// the layout already holds an unrelated image under another tag (so it has an index.json)
 			cfgB := []byte("{}")
@@ -1109,6 +1127,12 @@ func Run(focus string) func(o lib.Opts) {
 		if focus == "C03" {
 			for i := uint64(0); i < 6; i++ { // layout targets that already list the image: complete, or with the manifest file gone
 				all = append(all, Case{Kind: "copy", Seed: 4400 + i, Pair: lib.Pick(r, []string{"reg2dir", "dir2dir"}), DirPre: lib.Pick(r, []string{"listed", "listed", "all"}), Referrers: i%3 == 0, RefAPI: true})
+			}
+		}
+		if focus == "C04" {
+			// the copy fails at its last step (the place of the root manifest file is occupied): the tag keeps its old image
+			for i := uint64(0); i < 4; i++ {
+				all = append(all, Case{Kind: "blocked", Seed: 4900 + i, Pair: lib.Pick(r, []string{"reg2dir", "dir2dir"}), DirPre: "blockroot", XGraph: i == 3})
 			}
 		}
 		if focus == "C03" || focus == "C04" {
